@@ -51,7 +51,7 @@ ASSUMPTIONS = [
     "the frustum shares centre and radius with the sphere at one end (the statement's case)",
     "heights > 0, sphere radii > 0; far-end radius >= 0",
 ]
-REQUIRED = ["composites_built_between_build_and_measure", "centre_arrays_overwritten_after_construction", "sphere_pairs_in_small_units", "sphere_checked", "cap_checked", "frustum_checked", "ss_intersections", "ss_unions",
+REQUIRED = ["composites_built_between_build_and_measure", "solids_measured_after_a_near_twin_under_coarse_print_options", "centre_arrays_overwritten_after_construction", "sphere_pairs_in_small_units", "sphere_checked", "cap_checked", "frustum_checked", "ss_intersections", "ss_unions",
             "sf_intersections", "sf_unions", "ss_tangent", "ss_nested", "ss_concentric",
             "ss_smaller_first", "sf_far_end_order", "sf_taper_narrowing", "sf_taper_widening",
             "sf_frustum_inside_sphere", "sf_h_below_r", "sf_h_above_r", "sf_axis_aligned",
@@ -144,6 +144,11 @@ def _vol(ctx, case, obj):
 
 
 def execute(ctx, case):
+    if case.get("print_options") and not case.get("_inside"):
+        # the caller prints its arrays with two decimals (np.set_printoptions): how arrays print is
+        # none of the volume code's business
+        with np.printoptions(precision=2, suppress=True, floatmode="fixed"):
+            return execute(ctx, dict(case, _inside=True))
     from swcgeom.utils import VolFrustumCone, VolSphere
 
     k = case["kind"]
@@ -247,6 +252,14 @@ def execute(ctx, case):
             hh = float(np.linalg.norm(c2 - c))
             if small:
                 c2 = c2.astype(cin.dtype)
+            if case.get("print_options"):
+                # ... and has just measured the same solids about an almost identical axis
+                e_ = np.eye(3)[int(np.argmin(np.abs(u)))]
+                u_ = u + 3e-4 * (e_ - (e_ @ u) * u)
+                u_ /= np.linalg.norm(u_)
+                c2_ = c + u_ * h
+                VolSphere(c, r1).intersect(VolFrustumCone(c, r1, c2_, r2)).get_volume()
+                ctx.count("solids_measured_after_a_near_twin_under_coarse_print_options")
             fc = VolFrustumCone(cin, r1, c2, r2) if not far else VolFrustumCone(c2, r2, cin, r1)
             s = VolSphere(cin, r1)
             if ctx.evaluations % 3 == 0:
@@ -412,6 +425,8 @@ def run(ctx):
     with tap:
         for _ in range(ctx.scale(5000, 1040000)):
             case = draw_case(rng)
+            if case["kind"] == "sf" and not case.get("int_sizes") and rng.random() < 0.3:
+                case["print_options"] = True
             ctx.case(case, nontrivial=not (case["kind"] == "ss" and case["rel"] == "disjoint"),
                      klass=case["kind"] + ("/" + case["rel"] if case["kind"] == "ss" else ""))
             execute(ctx, case)
